@@ -69,3 +69,5 @@ def run(ctx):
             ctx.hist("monoid", tr.cfg["mon"])
             ctx.hist("len", len(tr.sent.get(0, [])))
             ctx.count(s, nontrivial=int(tr.cfg["par"]) >= 2 and len(tr.sent.get(0, [])) >= 2)
+    if ctx.thorough() and not ctx.replay:
+        ls.stress(ctx, ["forkfold"], 15, {"stage": "Fold", "pkg": "fork"})
